@@ -9,9 +9,12 @@ import (
 )
 
 // enum <hex text>  ->  check=<ok|err:code@idx> len=<n|err..> values=<kind:hexvalue:hexcomment,...|->
-//   kind: the SchemaType of the value ("comment" for comment-only entries)
+//
+//	kind: the SchemaType of the value ("comment" for comment-only entries)
+//
 // enumeq <hex rule text> <hex example>  ->  named=<check;example> inline=<check;example>
-//   the schema `<example> // {enum: @e}` with the rule registered, against `<example> // {enum: <rule text>}` (one-line rule texts only)
+//
+//	the schema `<example> // {enum: @e}` with the rule registered, against `<example> // {enum: <rule text>}` (one-line rule texts only)
 func init() {
 	handlers["enum"] = func(a []string) string {
 		text := unhex(a[0])
